@@ -253,8 +253,11 @@ func c06LockHandoff(p *load.Program, r *oblig.Report) {
 				clearStore = ins
 			}
 		}
-		if c2, ok := ins.(*ssa.Call); ok {
-			if f := c2.Call.StaticCallee(); f != nil && an.RefFuncName(f) == "Unlock" && strings.HasSuffix(argDesc(c2.Call.Args[0]), ".lock") {
+		if c2, ok := ins.(ssa.CallInstruction); ok {
+			if _, isGo := ins.(*ssa.Go); isGo {
+				return
+			}
+			if f := c2.Common().StaticCallee(); f != nil && an.RefFuncName(f) == "Unlock" && len(c2.Common().Args) == 1 && strings.HasSuffix(argDesc(c2.Common().Args[0]), ".lock") {
 				unlockCall = ins
 				for _, pred := range ins.Block().Preds {
 					_, ci := an.IfCond(pred)
@@ -266,6 +269,10 @@ func c06LockHandoff(p *load.Program, r *oblig.Report) {
 		}
 	})
 	okOrder := clearStore != nil && unlockCall != nil && an.Dominates(clearStore, unlockCall)
+	if _, deferred := unlockCall.(*ssa.Defer); deferred && clearStore != nil {
+		// a deferred unlock runs at exit: the field must have been cleared on every path by then
+		okOrder, _ = an.MustPass(bc, an.EntryPoint(bc), func(i ssa.Instruction) bool { return i == clearStore }, nil)
+	}
 	r.Check(cleared && unlockGuarded && okOrder, rule, "kafka.(*Batch).close releases the connection's read lock exactly once", p.Pos(bc.Pos()),
 		"batch.lock = nil before `if lock != nil { lock.Unlock() }`", fmt.Sprintf("cleared=%v guarded=%v clearedFirst=%v", cleared, unlockGuarded, okOrder))
 	// every Batch literal that carries a lock also carries the conn
